@@ -38,6 +38,7 @@ type Spec struct {
 	PathCap         int               `json:"path_cap"`
 	Out             string            `json:"out"`
 	Trace           bool              `json:"trace"`
+	NoEnum          bool              `json:"no_enum"`
 }
 
 func (s *Spec) knownTag(tag string) bool {
